@@ -6,7 +6,7 @@
    Only statements; every proof is `exact <lemma>` (proofs live in the files imported below). *)
 From Coq Require Import List String Bool Arith.
 Import ListNotations.
-From MT Require Import GenCli GenPyx DispatchProofs.
+From MT Require Import GenCli GenPyx DispatchSpec CliDispatchProofs PyxDispatchProofs.
 Local Open Scope string_scope.
 
 (* for each of the 16 combinations of (integer weights, directed, assortative, affinity file) EXACTLY ONE block's condition holds; it makes *)
